@@ -270,3 +270,27 @@ PROPS["C06"] = dict(
                 quick=dict(workers=16, checks=8000, steps=1, watchdog_s=900),
                 thorough=dict(workers=16, checks=600000, steps=1, watchdog_s=7200))],
 )
+
+PROPS["C20"] = dict(
+    level="exploration",
+    engine="iosim+medium",
+    technique="deterministic simulation of protodump's input seam: dumpProtoFile fed through a seeded io.Reader (short reads, zero-length reads, error after n bytes, truncation) and the built binary fed through file / pipe with drawn chunking / -file; reference walk oracle; rapid shrinking",
+    design_ref="DESIGN.md 4.7, 5 (C20)",
+    level_text=("Seeded search over drawn messages (valid or damaged by truncation / bit flip), drawn -expand / -strings path sets and drawn reader behaviour. In process, an added in-package "
+                "test runs dumpProtoFile with a reader that delivers 1..7-byte chunks, interleaves (0,nil) reads and fails after n bytes; one run in eight also starts the built binary with "
+                "stdin as a regular file, as a pipe written in drawn chunks or in one write, or with -file. protodump must never crash; a failing reader or input that runs past its end must "
+                "be reported as an error (non-zero exit); for input the reference walk accepts, stdout must parse into exactly the reference's (depth, tag, kind, value) sequence, recursing "
+                "into exactly the requested paths, independent of chunking and of the kind of stdin. Inputs whose validity is a matter of leniency (field number 0 or >= 2^26, over-long "
+                "varints, group wire types, string payloads with line breaks) are judged for crashes only. By-product: every message enters as annotated hex with drawn spacing, line "
+                "breaks and ';' comments and ParseAnnotatedHex must return the source bytes (a pure function; not claimed as simulation)."),
+    level_note="Trusted: the harness's reference walk and tolerant output parser (output it cannot read is exit 2, not a violation), the helper test file added to the scratch copy of cmd/protodump.",
+    needs=["protodump"],
+    rule=("one execution = one drawn message, damage, path sets and reader behaviour, judged through the reader seam and (1 in 8) through the process; non-trivial = the reference walk finds at "
+          "least one entry; distinct = hash of message bytes and steps"),
+    real=["dumpProtoFile, dumpProto, tagpath.go", "main() at process level (flag parsing, stdin handling)", "prototest.ParseAnnotatedHex"],
+    model=["io.Reader (chunking, zero-length reads, error after n bytes)", "kind of stdin (regular file, pipe, -file)", "medium (truncation, bit flip)"],
+    assumptions=["annotated-hex corruption cases and the empty/char-device stdin cases are judged for crashes only"],
+    tests=[dict(name="TestC20IO", pkg="c20", race=False, mem_gb=16,
+                quick=dict(workers=16, checks=1500, steps=1, watchdog_s=900),
+                thorough=dict(workers=16, checks=150000, steps=1, watchdog_s=7200))],
+)
